@@ -623,6 +623,8 @@ func (b *BaseStore) Sync(ctx context.Context, heads []ipfslog.Entry) error {
 		return nil
 	}
 
+	verifiedHeads := make([]ipfslog.Entry, 0, len(heads))
+
 	for _, h := range heads {
 		if h == nil {
 			b.Logger().Debug("warning: Given input entry was 'null'.")
@@ -661,10 +663,15 @@ func (b *BaseStore) Sync(ctx context.Context, heads []ipfslog.Entry) error {
 		}
 
 		span.AddEvent("store-sync-head-verified")
+		verifiedHeads = append(verifiedHeads, h)
+	}
+
+	if len(verifiedHeads) == 0 {
+		return nil
 	}
 
 	ctx = verifhook.SpawnCtx(ctx)
-	go b.Replicator().Load(ctx, heads)
+	go b.Replicator().Load(ctx, verifiedHeads)
 
 	return nil
 }
@@ -980,8 +987,11 @@ func (b *BaseStore) replicationLoadComplete(ctx context.Context, logs []ipfslog.
 
 		_, err := oplog.Join(log, -1)
 		if err != nil {
+			// a log that cannot be joined (unauthorised or badly signed
+			// entries) must not prevent the other logs of the batch from
+			// being merged
 			b.Logger().Error("unable to join logs", zap.Error(err))
-			return
+			continue
 		}
 
 		entries = append(entries, log.GetEntries().Slice()...)
